@@ -645,6 +645,8 @@ def run(M,st0,limit=10**10,on_call=None):
                 m=re.match(r'^drop\(.*\) -> \[return: bb(\d+).*\]$',s)
                 if m: fr.bb=int(m.group(1)); fr.ip=0; continue
                 # call
+                if re.match(r'^_\d+ = (core|std)::panicking::', s) or re.match(r'^_\d+ = (core::panicking::)?(panic|assert_failed|panic_fmt|panic_const)', s):
+                    raise Panic('explicit panic: '+s[:80])
                 k=find_top(s,' -> [')
                 if k<0 and s.endswith('-> unwind continue'): k=len(s)-len(' -> unwind continue')   # diverging
                 body=s[:k]; tail=s[k:]
@@ -702,6 +704,7 @@ class Drain(Native):
     '''produce the python list of all items of an iterator object, calling closures as needed'''
     def __init__(s,it,then): s.stack=[it]; s.out=[]; s.then=then; s.wait=None
     def step(s,M,st):
+        if getattr(s,'called',False): return ('ret',s.pending)
         while True:
             if s.wait=='map':
                 s.out.append(s.pending); s.wait=None
@@ -741,7 +744,21 @@ class Drain(Native):
         raise Unsupported('adaptor '+ad.src)
     def finish(s,M,st):
         if s.then=='vec': return ('ret',PyObj('vec',items=s.out))
-        raise Unsupported(s.then)
+        if s.then=='map':
+            mp=PyObj('map',slots=[])
+            for kv in s.out:
+                k_,v_=kv.f[0],kv.f[1]; hit=None
+                for sl in mp.slots:
+                    if repr(sl[0])==repr(k_): hit=sl
+                if hit: hit[1]=v_
+                else: mp.slots.append([k_,v_,True])
+            return ('ret',mp)
+        if isinstance(s.then,tuple) and s.then[0]=='from_iter':
+            # collect::<T>() for a crate type: hand the drained items to <T as FromIterator>::from_iter
+            if getattr(s,'called',False): return ('ret',s.pending)
+            s.called=True; s.stack=[]; s.wait=None
+            return ('call',s.then[1],[PyObj('iter',src='list',items=s.out,pos=0)])
+        raise Unsupported(str(s.then))
 class AllNF(Native):
     """Iterator::all / Iterator::any driver (short-circuiting, forks on a symbolic predicate result)"""
     any=False
@@ -846,6 +863,13 @@ class WriteFmt(Native):
                 act=fmt_dispatch(M,a.f[0],a.f[1],s.fref)
                 if act is None: continue
                 if act[0]=='f32':
+                    cv=z3.simplify(act[1])
+                    if z3.is_fp_value(cv):
+                        import numpy as _np, struct as _st
+                        bits=z3.simplify(z3.fpToIEEEBV(cv)).as_long(); x=_st.unpack('>f',_st.pack('>I',bits))[0]
+                        txt='NaN' if x!=x else ('inf' if x==float('inf') else '-inf' if x==float('-inf') else _np.format_float_positional(_np.float32(x),unique=True,trim='-'))
+                        if bits==0x80000000: txt='-0'
+                        deref(s.fref).buf.extend(Int(ord(ch),8) for ch in txt); continue
                     s.fval=act[1]; s.fstate='zero?'; return ('branch',z3.fpIsZero(act[1]))
                 s.wait=True; return act
             raise Unsupported(f'format template opcode {op:#x}')
@@ -896,6 +920,8 @@ def utf8_boundary(b,i):
 def call_model(M,st,fr,callee,args):
     c=callee.strip(); n=strip_generics(c) if not c.startswith('<') else c
     if c.startswith('core::f32::<impl f32>::') or c.startswith('std::f32::<impl f32>::'): c=c.split('::',1)[1]
+    c=re.sub(r'\b(?:std|core|alloc)::(?:string|vec|option|result|boxed)::(String|Vec|Option|Result|Box)\b',r'\1',c)
+    c=re.sub(r'\b(?:std|core)::collections::(?:hash_map::|hash_set::)?(HashMap|HashSet)\b',r'\1',c)
     if c.startswith('slice::<impl '): c='core::'+c
     if c.startswith('std::slice::<impl '): c='core::'+c[5:]
     if c in M.overrides: return M.overrides[c](M,st,args)
@@ -1089,6 +1115,32 @@ def call_model(M,st,fr,callee,args):
         inner=args[0]
         if inner.kind=='vec': inner=PyObj('iter',src='list',items=list(inner.items),pos=0)
         return PyObj('iter',src=m.group(2),inner=inner,closure=args[1])
+    m=re.match(r'^<(.*) as Iterator>::collect::<(?:std::collections::)?HashMap<',c)
+    if m: return Drain(args[0] if isinstance(args[0],PyObj) else args[0],'map')
+    m=re.match(r'^<(.*) as Iterator>::collect::<((?:\w+::)*[A-Z]\w*)>$',c)
+    if m and not m.group(2).startswith(('Vec','String','HashMap','HashSet','Result','Option')):
+        ty=m.group(2).split('::')[-1]
+        cand=[f_ for k_,f_ in M.index.items() if k_[0]==ty and k_[2]=='from_iter' and k_[1] and k_[1].startswith('FromIterator')]
+        if not cand: raise Unsupported('no FromIterator impl found for '+ty)
+        src_=args[0]
+        first=None
+        if len(cand)>1:
+            # choose by item shape once drained: (K,V) tuples vs bare keys -- decided in the Native below
+            pass
+        class _Coll(Drain):
+            def finish(s2,M_,st_):
+                if getattr(s2,'called',False): return ('ret',s2.pending)
+                want_tuple=bool(s2.out) and isinstance(s2.out[0],Agg) and s2.out[0].name=='' and len(s2.out[0].f)==2
+                pick=None
+                for f_ in cand:
+                    isk='(' in f_.header.split('FromIterator')[0] if False else None
+                for k_,f_ in M_.index.items():
+                    if k_[0]==ty and k_[2]=='from_iter' and k_[1] and k_[1].startswith('FromIterator'):
+                        tup='(' in k_[1]
+                        if tup==want_tuple or pick is None: pick=f_ if (tup==want_tuple or pick is None) else pick
+                s2.called=True
+                return ('call',pick,[PyObj('iter',src='list',items=s2.out,pos=0)])
+        return _Coll(src_ if isinstance(src_,PyObj) else src_,None)
     m=re.match(r'^<(.*) as Iterator>::collect::<Vec<',c)
     if m:
         src_=args[0]
@@ -1142,6 +1194,17 @@ def call_model(M,st,fr,callee,args):
         if meth=='remove':
             if p is True: hit[2]=False; return some(hit[1])
             old=hit[2]; hit[2]=False; return Forks([(old,some(hit[1])),(z3.Not(old),NONE())])
+    if re.match(r'^<HashMap<.*> as PartialEq>::(eq|ne)$',c):
+        a_,b_=deref(args[0]),deref(args[1]); conds=[]
+        ka={repr(sl[0]):sl for sl in a_.slots if sl[2] is not False}; kb={repr(sl[0]):sl for sl in b_.slots if sl[2] is not False}
+        for k_ in set(ka)|set(kb):
+            x,y=ka.get(k_),kb.get(k_)
+            px=z3.BoolVal(False) if x is None else (z3.BoolVal(True) if x[2] is True else x[2])
+            py=z3.BoolVal(False) if y is None else (z3.BoolVal(True) if y[2] is True else y[2])
+            conds.append(px==py)
+            if x is not None and y is not None: conds.append(z3.Implies(px,veq(x[1],y[1])))
+        r_=z3.And(*conds) if conds else z3.BoolVal(True)
+        return mkbool(r_ if c.endswith('eq') else z3.Not(r_))
     if re.match(r'^<HashMap<.*> as Clone>::clone$',c): return copy.deepcopy(deref(args[0]))
     m=re.match(r'^HashMap::<.*>::retain::<',c)
     if m:
@@ -1432,7 +1495,22 @@ def call_model(M,st,fr,callee,args):
         fresh=z3.BitVec(f'mbchar{M.fresh()}',32)
         return Forks([(asc,some(Char(cv))),(z3.And(z3.Not(asc),z3.UGE(fresh,0x80)),some(Char(fresh)))])
     if c=='<str as ToString>::to_string': return PyObj('string',b=list(deref(args[0]).b))
-    if c in('<str as PartialEq>::eq','<str as PartialEq>::ne','<&str as PartialEq>::eq','<&str as PartialEq>::ne'):
+    m=re.match(r'^<((?:\w+::)*[A-Z]\w*) as ToString>::to_string$',c)
+    if m and m.group(1) not in('String','str'):
+        ty=m.group(1).split('::')[-1]
+        f_=resolve_callee(M,f'<{ty} as std::fmt::Display>::fmt') or resolve_callee(M,f'<{ty} as Display>::fmt')
+        if f_ is None: raise Unsupported('ToString for a type without Display in the dump: '+ty)
+        fcell=Cell('fmt',PyObj('fmt',buf=[]))
+        class _TS(Native):
+            def __init__(s): s.state=0
+            def step(s,M_,st_):
+                if s.state==0: s.state=1; return ('call',f_,[args[0],Ref(fcell,[])])
+                if s.pending.var!='Ok': raise Panic('a Display implementation returned an error unexpectedly')
+                return ('ret',PyObj('string',b=list(fcell.v.buf)))
+        return _TS()
+    if c in('std::string::String::len',): c='String::len'
+    c=c.replace('std::str::FromStr','FromStr')
+    if re.match(r'^<(String|str|&str|&String) as PartialEq(<(&str|str|String|&String)>)?>::(eq|ne)$',c):
         a,b=deref(args[0]),deref(args[1])
         if len(a.b)!=len(b.b): r=z3.BoolVal(False)
         else: r=z3.And(*[x.z()==y.z() for x,y in zip(a.b,b.b)]) if a.b else z3.BoolVal(True)
@@ -1527,6 +1605,8 @@ def call_model(M,st,fr,callee,args):
         anyv=z3.FP(f'f32any{M.fresh()}',F32)
         alts=[(z3.And(simple,*extra) if extra else simple,okv),(z3.Not(simple),err(Unit())),(z3.Not(simple),ok(Flt(anyv)))]
         return Forks(alts)
+    if re.match(r'^<(.*) as IntoIterator>::into_iter$',c) and isinstance(args[0],PyObj) and args[0].kind=='iter': return args[0]
+    if re.match(r'^(?:std|core)::iter::empty::<',c): return PyObj('iter',src='list',items=[],pos=0)
     raise Unsupported('no model for '+c)
 def deref_once(v): return getp(v.cell,v.path) if isinstance(v,Ref) else v
 Machine.call_model=call_model
